@@ -113,10 +113,12 @@ def run(ctx):
                "_add_to_cache runs only under the success flag of its own download; failed misses leave the returned list",
                gi.loc(adds[0]) if adds else gi.loc())
     # worker: returns True only after download and post-process
-    cfgw = CFG(worker.node, exceptions=False)
-    dcalls = [c for c in calls(worker.node) if call_name(c).endswith(".download_function")]
-    pcalls = [c for c in calls(worker.node) if call_name(c).endswith(".post_process_function")]
-    trues = [n for n in own_walk(worker.node) if isinstance(n, ast.Return) and isinstance(n.value, ast.Constant) and n.value.value is True]
+    from .fc import inline_statement_calls
+    wnode = inline_statement_calls(p, worker)      # see through helper extraction (download/publish moved into a helper)
+    cfgw = CFG(wnode, exceptions=False)
+    dcalls = [c for c in calls(wnode) if call_name(c).endswith(".download_function")]
+    pcalls = [c for c in calls(wnode) if call_name(c).endswith(".post_process_function")]
+    trues = [n for n in own_walk(wnode) if isinstance(n, ast.Return) and isinstance(n.value, ast.Constant) and n.value.value is True]
     if len(dcalls) != 1 or len(pcalls) != 1 or not trues:
         ctx.unsure("R19.1", "_worker[success path]", "download/post-process/return True not found in the expected multiplicity", worker.loc())
     else:
@@ -125,7 +127,7 @@ def run(ctx):
         ctx.expect(ok, "R19.1", "_worker[success path]",
                    "True is returned only after the download and then the post-processing completed", worker.loc(trues[0]))
     # handlers
-    for tr in [n for n in own_walk(worker.node) if isinstance(n, ast.Try)]:
+    for tr in [n for n in own_walk(wnode) if isinstance(n, ast.Try)]:
         for h in tr.handlers:
             names = handler_names(h)
             broad = any(n in ("<bare>", "Exception", "BaseException") for n in names)
@@ -179,7 +181,7 @@ def run(ctx):
     ctx.require_count("R19.4", 3)
 
     # ---- R19.3 atomic publication
-    la = local_assignments(worker.node)
+    la = local_assignments(wnode)
     if len(dcalls) == 1 and len(pcalls) == 1:
         d_arg = dcalls[0].args[1] if len(dcalls[0].args) > 1 else None
         p_arg = pcalls[0].args[0] if pcalls[0].args else None
@@ -205,7 +207,7 @@ def run(ctx):
                    "download and post-processing write to <final path> + a literal suffix that the adoption filter rejects",
                    worker.loc(dcalls[0]), derived=f"download -> {ast.unparse(d_arg) if d_arg is not None else None}",
                    required="cache_miss.filepath + '<suffix not ending in the cache postfix>'")
-        reps = [c for c in calls(worker.node) if resolve_ext(p, worker, c) in ("os.replace", "os.rename")]
+        reps = [c for c in calls(wnode) if resolve_ext(p, worker, c) in ("os.replace", "os.rename")]
         ok_rep = False
         for r_ in reps:
             if len(r_.args) == 2 and d_arg is not None and ast.unparse(r_.args[0]) == ast.unparse(d_arg) \
@@ -224,7 +226,7 @@ def run(ctx):
                    derived=", ".join(ast.unparse(c) for c in direct))
         # cleanup on failure: some handler removes the temporary file and re-raises
         cleanup = False
-        for tr in [n for n in own_walk(worker.node) if isinstance(n, ast.Try)]:
+        for tr in [n for n in own_walk(wnode) if isinstance(n, ast.Try)]:
             for h in tr.handlers:
                 rem = [c for b in h.body for c in ast.walk(b) if isinstance(c, ast.Call)
                        and resolve_ext(p, worker, c) in ("os.remove", "os.unlink") and d_arg is not None
